@@ -24,6 +24,8 @@ def _mk_buffer_classes():
         _vlog = None
 
         def _new_buffer(self, capacity):
+            if capacity > (1 << 18):       # a size read from corrupted bytes: refuse like an allocator out of memory would
+                raise MemoryError(f"harness buffer limit: {capacity} bytes requested")
             b = super()._new_buffer(capacity)
             if isinstance(b, bytearray):
                 b[:] = bytes([POISON]) * len(b)
@@ -214,6 +216,8 @@ class World:
                         dt = np.dtype(tx["it"]["np"].lower())
                         if a.dtype != dt:
                             raise TypeError("to_nplike dtype")
+                        if a.size > 4096:
+                            raise OverflowError("implausible shape")
                         v = {"sh": [int(d) for d in a.shape], "it": [list(a[idx].tobytes()) for idx in np.ndindex(*a.shape)]}
                         size, strides = -1, [int(q) for q in a.strides]
                     elif route == "hybrid":
